@@ -6,7 +6,7 @@ HOOKS = {"guard": "verif",
          "source_commits": [], "add_only": True}
 ENGINES = [
     {"name": "tlc", "path": "/verif/spec", "kind_free_text": "TLA+ specification (WitnessCore, Witness, ...) checked, used as generator (every transition emitted as JSON) and as judge of recorded traces (Trace_*.tla) by TLC 1.8.0",
-     "serves_properties": ["C01", "C02", "C03", "C04", "C05", "C06", "C07", "C08", "C09", "C12", "C16", "C20"]},
+     "serves_properties": ["C01", "C02", "C03", "C04", "C05", "C06", "C07", "C08", "C09", "C10", "C11", "C12", "C16", "C20"]},
     {"name": "driver", "path": "/verif/harness", "kind_free_text": "Go harness (own module with replace => /repo): concretiser, independent RFC 6962 / signed-note reference, drivers that execute TLC-generated behaviours against the real code and record ndjson observations",
      "serves_properties": ["C01", "C02", "C03", "C04", "C08", "C09", "C12", "C16", "C20"]},
 ]
@@ -42,6 +42,14 @@ CHECKS = {
     "C04": seq("Every accept transition x note shapes x witness key sets executed; the harness re-verifies each returned note with its own ed25519 code and TLC evaluates AcceptShape on the result; forced one-second waits expose stale cosignatures.", "DESIGN.md section 5 C04"),
     "C08": seq("Shortest path to every reachable state of the bounded model (and of the unguarded design variant) plus random walks, each followed by honest probes computed from the observed state; TLC evaluates HonestProgress. The size-0 wedge is a recorded known finding.", "DESIGN.md section 5 C08"),
     "C09": seq("TLC proves Decide = SpecVerdict on C09's domain of the bounded one-step model (all (stored, submitted, old) cubed x roots x proofs) and every such transition is executed on the real witness; TLC evaluates FirstMatch on the observed verdict and returned bytes, with the reference RFC 6962 verifier as third opinion on the proof bit.", "DESIGN.md section 5 C09"),
+    "C10": {"engine": "tlc", "level": "model_checking", "design_ref": "DESIGN.md section 5 C10",
+            "text": "TLC checks Bastion.tla (status table, 200 only when accepted, 429 not processed, documented statuses) and emits every transition (every body class x every verdict class x every witness state reached through the endpoint); each is executed in process against the real handler wired to the real witness; TLC (Trace_Bastion) judges status, content type, body class, cosignature validity and state; rate limiter judged on monotonic-time bounds.",
+            "note": SEQ_NOTE + " The in-process handler is built by an add-only overlay shim exactly as FeedBastion builds it.",
+            "technique": "TLC model checking of Bastion.tla + replay of every TLC-emitted transition through the real HTTP handler + TLC trace validation"},
+    "C11": {"engine": "tlc", "level": "model_checking", "design_ref": "DESIGN.md section 5 C11",
+            "text": "TLC enumerates every sequence of line tokens up to length 4 (thorough 5) with the grammar's verdict (ParseBody, GrammarSane); each is rendered with seeded values and fed to the real parseBody; Proof.Marshal/Unmarshal for every length 0..64; bodies written by cmd/feedbastion's own writer; TLC (Trace_Body) judges exact read-back and refusal without partial data. Structure exhaustive, byte values sampled.",
+            "note": "Trusted: TLC, the token renderer (what was written is remembered by the harness), seeded value sampling; the VALUE domain (0..2^64-1, hash bytes, checkpoint bytes) is sampled, not enumerated.",
+            "technique": "TLC enumeration of the body grammar of Bastion.tla + replay into the real parser and writers + TLC trace validation"},
     "C12": seq("TLC checks Isolation on the multi-log model (logs sharing a key); every transition is executed and judged on per-log byte snapshots; TLC-generated interleavings are compared with each log's history alone (AloneEqualsInterleaved). The identity half of C12 (same id on every interface, duplicates refused at start-up) is judged by the start-up trace spec.", "DESIGN.md section 5 C12"),
     "C16": seq("Histories over 1..3 logs with the registered mux handlers and the bundled client in the loop; TLC evaluates ReadExact / LogListExact / OddId (17 odd-id classes, before and after redirects) on the observed responses.", "DESIGN.md section 5 C16"),
     "C20": seq("Decision-table transitions and random multi-log histories executed in a dedicated process with a recording MetricFactory; TLC evaluates CountersTrue on counters read after every step.", "DESIGN.md section 5 C20"),
